@@ -309,10 +309,19 @@ type hgen struct {
 	tr   *Trace
 	m    *MWorld // the model, run during generation to know lengths
 	uniq int
+	// big: this run leaves the small bounds on purpose (swarm style, about one
+	// run in eight): some Push calls offer 12-40 values at once, so lengths pass
+	// 16/32 and capacities are overrun by far; some values are multi-byte UTF-8
+	// or longer than 128 bytes. Fast paths and fixed buffers live beyond the
+	// sizes the ordinary runs reach (wave 10 of the seeded changes).
+	big  bool
+	last Op // the operation as emitted last (a bulk Push has more arguments than the caller gave)
 }
 
 func newHgen(r *Rng, id string) *hgen {
-	return &hgen{r: r, tr: &Trace{Prop: id, Seq: true, Tasks: [][]Op{nil}}, m: &MWorld{Ncons: map[string]int{}}}
+	g := &hgen{r: r, tr: &Trace{Prop: id, Seq: true, Tasks: [][]Op{nil}}, m: &MWorld{Ncons: map[string]int{}}}
+	g.big = r.Bool(0.125)
+	return g
 }
 
 func (g *hgen) addStack(kind string, cap int) int {
@@ -342,11 +351,32 @@ func (g *hgen) addCond(kw string, op int, ex Val) int {
 
 func (g *hgen) kind() string { return kinds[g.r.Intn(len(kinds))] }
 
-func (g *hgen) uv() Val { g.uniq++; return vStr("v" + strconv.Itoa(g.uniq)) }
+func (g *hgen) uv() Val {
+	g.uniq++
+	v := "v" + strconv.Itoa(g.uniq)
+	if g.big {
+		switch g.r.Intn(8) {
+		case 0, 1:
+			v += "\u00e9\u2192\u00fc" // multi-byte UTF-8
+		case 2:
+			v += strings.Repeat("x", 140) // longer than any small fixed buffer
+		}
+	}
+	return vStr(v)
+}
 
 // emit appends op to the program (or the setup) and advances the
 // generation-time model.
 func (g *hgen) emit(op Op, setup bool) {
+	if g.big && op.M == "Push" && op.Tag == "" && op.Obj >= 0 && op.Obj < len(g.m.S) && g.m.S[op.Obj] != nil && g.r.Bool(0.4) {
+		// a bulk Push: 12-40 more values in the same call
+		args := append([]Val(nil), op.Args...)
+		for k := g.r.Range(12, 40); k > 0; k-- {
+			args = append(args, g.uv())
+		}
+		op.Args = args
+	}
+	g.last = op
 	if setup {
 		g.tr.Setup = append(g.tr.Setup, op)
 	} else {
